@@ -96,6 +96,48 @@ def rule_who_may_write(facts):
                                       "%s performs `%s` on InputRef.cursor but is not one of the primitives that pair cursor "
                                       "movement with Inspector hooks (spec/hooks_table.py): user state can get out of step with the "
                                       "position" % (q, k), *loc(b)))
+    # every assignment to the cursor is one of: token advance (a local advanced by Input::next*), checkpoint
+    # restore (from a Checkpoint parameter, with on_rewind in the same body), copy-back from a child input, or the
+    # named byte-skip exception.  Anything else (e.g. putting back a saved copy of the cursor) moves the position
+    # without telling the Inspector.
+    for b in facts.bodies:
+        if b["qname"] not in HT.CURSOR_WRITERS:
+            continue
+        pv = Prov(b)
+        advanced = set()
+        for _, bl, t, f in calls(b):
+            if f is not None and f.get("trait") in ("input::Input", "input::ValueInput", "input::BorrowInput") and f["name"] in ("next", "next_maybe", "next_ref") and len(t["args"]) > 1:
+                dp = mirq.direct_place(b, t["args"][1]["op"])
+                if dp is not None and not dp["p"]:
+                    advanced.add(dp["l"])
+        has_rewind_hook = any(f is not None and f["name"] == "on_rewind" for _, _, _, f in calls(b))
+        child_inputs = {s_["place"]["l"] for _, _, s_ in assigns(b) if s_["rv"]["k"] == "agg" and s_["rv"].get("adt") == "input::InputRef"}
+        for _, bl, s_ in assigns(b):
+            if not is_field(s_["place"], "input::InputRef", "cursor"):
+                continue
+            rv = s_["rv"]
+            cls = "?"
+            if rv["k"] == "use":
+                sp = mirq.direct_place(b, rv["op"])
+                if sp is not None and sp["l"] in advanced and not sp["p"]:
+                    cls = "token-advance"
+                elif sp is not None and sp["l"] in child_inputs and is_field(sp, "input::InputRef", "cursor"):
+                    cls = "child-copy-back"
+                elif sp is not None and 1 <= sp["l"] <= b["arg_count"] and any(isinstance(e, dict) and e.get("a") == "input::Checkpoint" for e in sp["p"]):
+                    cls = "checkpoint-restore" if has_rewind_hook else "checkpoint-restore-without-on_rewind"
+            elif rv["k"] == "bin" or (rv["k"] == "use" and False):
+                cls = "byte-skip" if b["qname"].endswith("skip_bytes") else "?"
+            if rv["k"] == "use" and cls == "?":
+                src = pv.of_rvalue(rv, 0)
+                if any(x[0] == "field" and x[1][0] == "bin" for x in src) and b["qname"].endswith("skip_bytes"):
+                    cls = "byte-skip"
+            ok = cls in ("token-advance", "child-copy-back", "checkpoint-restore", "byte-skip")
+            r.ob(ok)
+            if not ok:
+                r.violations.append(V("HOOKS-WRITERS", b["qname"], "unhooked cursor assignment (%s)" % cls,
+                                      "%s assigns InputRef.cursor from %s, which is neither a token advance hooked by on_token, nor a "
+                                      "checkpoint restore hooked by on_rewind, nor the copy-back of a child input: the Inspector is not told "
+                                      "that the position changed" % (b["qname"], fmt_roots(pv.of_rvalue(rv, 0))[:160]), b["file"], s_.get("line")))
     for q in HT.CURSOR_WRITERS:
         if q not in seen and not HT.CURSOR_WRITERS[q][2]:
             r.errors.append("anchor %s: listed cursor writer no longer touches the cursor (table out of date)" % q)
@@ -415,11 +457,13 @@ def rule_sub_inputs(facts):
     # with_input: inner secondary drained into outer exactly once (drain + extend), inner alt re-homed at the outer cursor
     b = facts.one("input::InputRef::with_input")
     names = [f["name"] for _, _, _, f in calls(b) if f is not None]
-    ok = names.count("extend") == 1 and names.count("drain") == 1
+    ext_blocks = [i for i, bl, t, f in calls(b) if f is not None and f["name"] == "extend"]
+    ok = names.count("extend") == 1 and names.count("drain") == 1 and on_all_paths(b, ext_blocks)
     r.ob(ok)
     if not ok:
         r.violations.append(V("SUB-INPUT", b["qname"], "inner emissions moved to the outer list once",
-                              "with_input must drain the inner secondary errors into the outer list exactly once; calls: %s"
+                              "with_input must drain the inner secondary errors into the outer list exactly once, on every path "
+                              "(whatever the inner parse left pending); calls: %s"
                               % [n for n in names if n in ("extend", "drain", "append", "push")], *loc(b)))
     # WithState::go passes a fresh clone of self.state
     ws = facts.find("combinator::WithState[Parser]::go")
